@@ -241,7 +241,9 @@ impl<T: TrustProvider> TrustAwarePeerSelector<T> {
         // Trust is a score in [0, 1]: an out-of-range answer of the provider (e.g. -5.0)
         // would make the factor negative and turn the distance ranking upside down.
         let trust = unit_interval(trust);
-        let alpha = config.trust_weight;
+        // The weight is a share in [0, 1] as well: above 1 the factor decreases with
+        // trust, below 0 it can be negative.
+        let alpha = unit_interval(config.trust_weight);
         let trust_factor = alpha + (1.0 - alpha) * trust;
 
         distance_score * trust_factor
